@@ -42,6 +42,10 @@ def check(ctx):
     # the schedulers start their search at IResource.get_nearest_availability_date: its shape is C17's obligation, reused here
     from . import c17 as _c17
     _c17._search(ctx)
+    # which exception type an exhausted search raises is C14's clause, not a tightness / late-packing matter
+    for ob_ in ctx.obligations:
+        if ob_.id.endswith('.search'):
+            ob_.refuted = [f_ for f_ in ob_.refuted if 'expected RuntimeError' not in f_.msg]
 
     o = ctx.ob('date_encoding', 'R8',
                "start = midnight(d) + 1 day * RESV(d)/CAP(d); end = last day + 1 day * RESV'(last)/CAP(last), RESV' read after the "
@@ -181,14 +185,24 @@ def order(ctx, o, ps: PassShape, pt):
         if match(f"{ps.task}.children", it):
             o.site(ps.f, fo, "children in list order")
             continue
-        if pt is not None and same(coll, pt['iter']):
+        sub_ = sched_fill.same_wbs_subset(ps, coll, ps.cfg.node_of(fo)) if pt is not None and not same(coll, pt['iter']) else None
+        if pt is not None and (same(coll, pt['iter']) or (sub_ is not None and (same(sub_, pt['iter']) or
+                                                                               same(sub_, ps.ex.expand(pt['iter'], ps.cfg.node_of(pt['stmt'])))))):
             srcs = pt['sources']
             if srcs['setlike']:
                 o.refute(ps.f, fo, srcs['setlike'][0], "the dependency collection is built as a set: its iteration order (and with it "
                                                         "the order in which capacity is handed out) is not the list order")
             elif srcs['unknown']:
                 closure = [x for x in walk_no_nested(ps.f.node) if isinstance(x, ast.Attribute) and x.attr == 'all_' + ps.rel]
-                if closure:
+                state = [x for u_ in srcs['unknown'] if isinstance(u_, ast.AST) for x in ast.walk(u_)
+                         if isinstance(x, ast.Attribute) and isinstance(x.value, ast.Name) and x.value.id == ps.f.params[0] and x.attr != S['resources']]
+                calc_ = ctx.prog.func(S['calc'])
+                reset = state and [st_ for st_, t_, v_ in facts.attr_stores(calc_, state[0].attr)]
+                if state and not reset:
+                    o.refute(ps.f, fo, state[0], f"dependencies are taken from `self.{sched.unmangle(state[0].attr) if hasattr(sched, 'unmangle') else state[0].attr}`, state kept on the "
+                                                 f"scheduler object that calc() never resets: a later calc() on the same scheduler reuses the task objects (and end "
+                                                 f"dates) of the previous run")
+                elif closure:
                     o.refute(ps.f, fo, closure[0], f"the tasks a task waits for are collected from `{src(closure[0])}` (the transitive closure of the links), "
                                                    f"not from its direct {ps.rel}: the release day also waits for the ends of indirect {ps.rel}, so the "
                                                    f"resource idles although every direct prerequisite has ended")
@@ -213,7 +227,14 @@ def order(ctx, o, ps: PassShape, pt):
         o.undecided(ps.f, fo, fo.iter, "recursion over an unrecognised collection")
     # dependencies before children
     los = [lo for lo in (loop_of(c) for c in ps.pass_calls()) if lo is not None]
-    dep_loops = [lo[0] for lo in los if pt is not None and same(lo[1], pt['iter'])]
+    def _is_dep(lo):
+        if pt is None:
+            return False
+        if same(lo[1], pt['iter']):
+            return True
+        sb = sched_fill.same_wbs_subset(ps, lo[1], ps.cfg.node_of(lo[0]))
+        return sb is not None and (same(sb, pt['iter']) or same(sb, ps.ex.expand(pt['iter'], ps.cfg.node_of(pt['stmt']))))
+    dep_loops = [lo[0] for lo in los if _is_dep(lo)]
     ch_loops = [lo[0] for lo in los if match(f"{ps.task}.children", (sched.strip_seq_copy if hasattr(sched, 'strip_seq_copy') else (lambda x: x))(
         ps.ex.expand(lo[1], ps.cfg.node_of(lo[0]))))]
     if dep_loops and ch_loops:
